@@ -153,6 +153,27 @@ func (o Opts) Class() string {
 	return strings.Join(p, "+")
 }
 
+// Reduced is a coarse class of the option subset for violation keys: which families of options are present.
+func (o Opts) Reduced() string {
+	var p []string
+	if o.HasUpdateMask || o.HasResetMask || o.HasMoreWritable || o.AllWritable || o.HasReadMask {
+		p = append(p, "masks")
+	}
+	if o.ExpectValue != nil || o.ExpectCheck || o.ExpectAbsent {
+		p = append(p, "preconditions")
+	}
+	if o.Before || o.After {
+		p = append(p, "interceptors")
+	}
+	if o.GenID {
+		p = append(p, "genid")
+	}
+	if len(p) == 0 {
+		return "plain"
+	}
+	return strings.Join(p, "+")
+}
+
 // Op is one call.
 type Op struct {
 	Kind   OpKind        `json:"kind"`
@@ -191,6 +212,8 @@ type Result struct {
 	Err        string
 	GenIDs     []string // ids passed to the id callback
 	CreatedCBs int      // calls of the created callback
+	BeforeN    int      // calls of the InterceptBefore function
+	AfterN     int      // calls of the InterceptAfter function
 }
 
 // Verdict of comparing a real Result with the model.
@@ -399,6 +422,10 @@ func (m *Model) applyWrite(s State, op Op, got Result) (Verdict, State) {
 		if got.Msg != nil && got.Msg.ProtoReflect().IsValid() {
 			return Verdict{Clause: "value-with-error", Why: fmt.Sprintf("%v failed with %v but also returned %s", op, got.Code, vk.JSON(got.Msg))}, s
 		}
+		if got.BeforeN != 0 || got.AfterN != 0 {
+			// documented: preconditions are checked before InterceptBefore; a failing call must not run interceptors
+			return Verdict{Clause: "interceptor-on-failed-call", Why: fmt.Sprintf("%v failed with %v but the interceptors ran (before %d, after %d times)", op, got.Code, got.BeforeN, got.AfterN)}, s
+		}
 		return Verdict{OK: true}, s
 	}
 	if got.Code != codes.OK {
@@ -438,6 +465,9 @@ func (m *Model) applyWrite(s State, op Op, got Result) (Verdict, State) {
 		}
 	}
 
+	if wb, wa := b2i(o.Before && m.Type.Before != nil), b2i(o.After && m.Type.After != nil); got.BeforeN != wb || got.AfterN != wa {
+		return Verdict{Clause: "interceptor-count", Why: fmt.Sprintf("%v succeeded with interceptors run before=%d after=%d times, want %d and %d", op, got.BeforeN, got.AfterN, wb, wa)}, s
+	}
 	v := proto.Clone(op.Val)
 	if o.Before && m.Type.Before != nil {
 		var oldArg proto.Message
@@ -556,4 +586,11 @@ func (m *Model) applyDelete(s State, op Op, got Result) (Verdict, State) {
 		return Verdict{Clause: "return", Why: fmt.Sprintf("%v returned %s, model says the removed item is %s", op, vk.JSON(got.Msg), vk.JSON(cur.Msg))}, s
 	}
 	return Verdict{OK: true, Success: true, Event: &Event{ID: id, Type: "REMOVE", Old: cur.Msg, Time: o.WriteTime}}, s.without(id)
+}
+
+func b2i(b bool) int {
+	if b {
+		return 1
+	}
+	return 0
 }
